@@ -186,14 +186,32 @@ func runBundle(base string, c *mCase) (obs *mObs) {
 			obs.Outside++
 		}
 	}
-	// paths outside any package directory
-	outsidePaths := []string{}
+	// paths outside any package directory; the listed directories are those of the document that was written
+	locals := []string{}
 	for _, pk := range c.Pkgs {
+		locals = append(locals, pk.Local)
+	}
+	if c.Raw != "" {
+		var written struct {
+			Packages []struct {
+				Local string `json:"local"`
+			} `json:"packages"`
+		}
+		if json.Unmarshal([]byte(c.Raw), &written) == nil {
+			locals = locals[:0]
+			for _, pk := range written.Packages {
+				locals = append(locals, pk.Local)
+			}
+		}
+	}
+	outsidePaths := []string{}
+	for _, pkLocal := range locals {
+		pk := mPkg{Local: pkLocal}
 		// a directory whose name differs from a listed one only by letter case is not in the manifest
 		for _, v := range []string{strings.ToUpper(pk.Local), strings.ToLower(pk.Local)} {
 			listed := false
-			for _, q := range c.Pkgs {
-				if q.Local == v {
+			for _, q := range locals {
+				if q == v {
 					listed = true
 				}
 			}
@@ -210,8 +228,8 @@ func runBundle(base string, c *mCase) (obs *mObs) {
 	for _, p := range append(outsidePaths, []string{root, filepath.Dir(root), filepath.Join(root, "nosuchdir", "x"), filepath.Join(root, "..", "elsewhere"), "/", filepath.Join(root, "terraform-sources.json-not")}...) {
 		if _, err := bundle.SourceForLocalPath(p); err == nil {
 			known := false
-			for _, pk := range c.Pkgs {
-				if strings.HasPrefix(p, filepath.Join(root, pk.Local)) && pk.Local != "" {
+			for _, l := range locals {
+				if strings.HasPrefix(p, filepath.Join(root, l)) && l != "" {
 					known = true
 				}
 			}
